@@ -19,6 +19,10 @@ import traceback
 import common
 from common import VERIF, Driver, HarnessError, audit, lake_build, seed_from_env, write_json
 
+# Runs of the self-test (MOSAIK_SRC pointing at a scratch copy with a seeded change) must not overwrite the evidence and replay files
+# of the checks proper, which are about /repo.
+OUT_DIR = VERIF if os.path.realpath(common.MOSAIK_SRC) == os.path.realpath("/repo") else os.environ.get("VERIF_SELFTEST_OUT", "/var/tmp/mosaik-verif-selftest")
+
 TRUSTED_BASE = [
     "Lean 4.33.0 kernel; axioms of every property theorem are printed by `#print axioms` on each run and must be a subset of {propext, Classical.choice, Quot.sound}",
     "hand-written Lean model (lean/MosaikModel); tied to /repo by the correspondence suites of this run, whose reach is the generated inputs listed under coverage.correspondence",
@@ -67,9 +71,9 @@ def finish(o: Outcome, spec: dict) -> int:
 
     exit_code = 0
     vio_lines = []
-    os.makedirs(os.path.join(VERIF, "replays"), exist_ok=True)
+    os.makedirs(os.path.join(OUT_DIR, "replays"), exist_ok=True)
     if new_violations:
-        path = os.path.join(VERIF, "replays", f"{pid}-{o.tier}-{o.seed}.json")
+        path = os.path.join(OUT_DIR, "replays", f"{pid}-{o.tier}-{o.seed}.json")
         write_json(path, {"property": pid, "tier": o.tier, "seed": o.seed, "kind": "violation",
                           "violation": new_violations[0], "more": len(new_violations) - 1})
         vio_lines.append(f"VIOLATION property={pid} replay={path}")
@@ -86,7 +90,7 @@ def finish(o: Outcome, spec: dict) -> int:
             what.append(f"no property theorems found for {pid}")
         if dis:
             what.append(f"correspondence suite(s) {sorted(set(d['suite'] for d in dis))} disagree with the code ({len(dis)} cases)")
-        path = os.path.join(VERIF, "replays", f"{pid}-{o.tier}-{o.seed}.json")
+        path = os.path.join(OUT_DIR, "replays", f"{pid}-{o.tier}-{o.seed}.json")
         write_json(path, {"property": pid, "tier": o.tier, "seed": o.seed, "kind": "no-failing-input-found",
                           "no_longer_checks": what, "first_disagreements": dis[:5],
                           "searched": o.monitor_stats})
@@ -99,7 +103,7 @@ def finish(o: Outcome, spec: dict) -> int:
     ev = {
         "property_id": pid, "tier": o.tier, "seed": o.seed, "level": "proof",
         "coverage": {
-            "obligations": max(len(thms), 0), "discharged": len(discharged) if proof_ok or thms else 0,
+            "obligations": max(len(thms), 1), "discharged": len(discharged) if proof_ok or thms else 0,
             "checker_cmd": "cd lean && lake build && lake env lean <#print axioms of MosaikProofs.Properties." + pid + ">" +
                            (" && lake env leanchecker MosaikProofs.Properties." + pid + " (" + str(o.audit.get("leanchecker")) + ")" if o.tier == "thorough" else ""),
             "trusted_base": TRUSTED_BASE,
@@ -118,7 +122,7 @@ def finish(o: Outcome, spec: dict) -> int:
         "wall_s": round(time.time() - o.t0, 2),
         "violations": len(new_violations) + (1 if vio_lines and not new_violations else 0),
     }
-    write_json(os.path.join(VERIF, "evidence", f"{pid}.json"), ev)
+    write_json(os.path.join(OUT_DIR, "evidence", f"{pid}.json"), ev)
     for l in o.log:
         print(l)
     for s in o.suites:
@@ -141,7 +145,8 @@ def run_check(pid: str, tier: str, seed: int, replay: str | None = None) -> int:
         if replay:
             return registry.replay(pid, replay)
         o.built = lake_build(o.log)
-        o.audit = audit(pid, o.log, deep=(tier == "thorough")) if o.built else {}
+        # (a broken build discharges nothing, but the obligations are still the theorems of the property's file)
+        o.audit = audit(pid, o.log, deep=(tier == "thorough")) if o.built else {"theorems": common.property_theorems(pid), "discharged": []}
         driver = Driver() if o.built else None
         rng = random.Random(seed * 7919 + hash(pid) % 1000 if False else seed * 7919 + int(pid[1:]))
         try:
@@ -161,8 +166,8 @@ def run_check(pid: str, tier: str, seed: int, replay: str | None = None) -> int:
         frames = traceback.extract_tb(e.__traceback__)
         inside = [f for f in frames if os.path.realpath(f.filename).startswith(os.path.join(src, "mosaik") + os.sep)]
         if inside:
-            os.makedirs(os.path.join(VERIF, "replays"), exist_ok=True)
-            path = os.path.join(VERIF, "replays", f"{pid}-{tier}-{seed}.json")
+            os.makedirs(os.path.join(OUT_DIR, "replays"), exist_ok=True)
+            path = os.path.join(OUT_DIR, "replays", f"{pid}-{tier}-{seed}.json")
             write_json(path, {"property": pid, "tier": tier, "seed": seed, "kind": "no-failing-input-found",
                               "no_longer_checks": [f"the implementation raised {type(e).__name__}: {str(e)[:200]} inside {inside[-1].filename}:{inside[-1].lineno} "
                                                    f"({inside[-1].name}) while the check was exercising it; the harness expects no such exception there"],
@@ -172,7 +177,7 @@ def run_check(pid: str, tier: str, seed: int, replay: str | None = None) -> int:
                                "note": "the run was cut short by an exception raised inside the implementation"},
                   "assumptions": [], "wall_s": round(time.time() - o.t0, 2), "violations": 1}
             try:
-                write_json(os.path.join(VERIF, "evidence", f"{pid}.json"), ev)
+                write_json(os.path.join(OUT_DIR, "evidence", f"{pid}.json"), ev)
             except Exception:
                 pass
             print(f"VIOLATION property={pid} replay={path} no-failing-input-found")
